@@ -514,6 +514,20 @@ theorem imageCoordinateSystem_total (d : CoordInput) (he : d.emptyAtFirstItem = 
   all_goals exact ⟨_, rfl⟩
 
 
+/-- DICOM (PS3.3 C.7.6.16.1.2) demands that every item of the Per-frame Functional Groups Sequence contains the SAME set of functional
+groups.  Under that assumption the FIRST item, the only one `get_image_coordinate_system` reads, speaks for all frames. -/
+theorem first_item_speaks_for_all (perFrame : List Groups)
+    (huni : ∀ g ∈ perFrame, ∀ g' ∈ perFrame, g.posPatient.isSome = g'.posPatient.isSome) :
+    ((perFrame.head?.bind (·.posPatient)).isSome = true) ↔ (perFrame ≠ [] ∧ ∀ g ∈ perFrame, g.posPatient.isSome = true) := by
+  cases perFrame with
+  | nil => simp
+  | cons g0 gs =>
+    simp only [List.head?_cons, Option.bind_some, ne_eq, reduceCtorEq, not_false_eq_true, true_and]
+    constructor
+    · intro h g hg
+      rw [huni g hg g0 (List.mem_cons_self)]; exact h
+    · intro h; exact h g0 (List.mem_cons_self)
+
 /-! ## number of channels -/
 
 /-- **the number of channels of a TILED_FULL image, as the library derives it** (regenerated decision): a LABELMAP segmentation has one,
